@@ -272,11 +272,14 @@ def _other_tb():
     return tb
 
 
-def _bad_tb(nports, w):
+def _bad_tb(nports, w, bp=False):
     env._reset_all()
     tb = _tb(nports, w)
+    if bp:  # a bundle-valued port besides the scalar ones (flattens into further ports)
+        tb.io = h.Diff(port=True)
+        tb.rio = h.primitives.R(r=1)(p=tb.io.p, n=tb.io.n)
     env.COUNTS["reached"] += 1
-    good = nports == 1 and w == 1
+    good = nports == 1 and w == 1 and not bp
     try:
         hs.to_proto(hs.Sim(tb=tb, attrs=[hs.Op()]))
     except Exception:
@@ -302,10 +305,10 @@ def sim_export(k1, k2, k3, coef, k0, style, depth, named, multi):
         return _sim([k1, k2, k3], coef, k0, style, depth, named, multi)
 
 
-@harness("C17", args="nports: int, w: int", pre=["0 <= nports <= 3", "1 <= w <= 3"], tiers={"quick": {"timeout": 120}}, sample=(2, 1),
-         bounds="testbench interface: 0..3 ports of width 1..3: exactly one scalar port is accepted, everything else rejected",
+@harness("C17", args="nports: int, w: int, bp: bool", pre=["0 <= nports <= 3", "1 <= w <= 3"], tiers={"quick": {"timeout": 120}}, sample=(1, 1, True),
+         bounds="testbench interface: 0..3 ports of width 1..3, with or without a bundle-valued port: exactly one scalar port (and nothing else) is accepted, everything else rejected; alone and in a list",
          generalises="port count and width (enumerated)", outside="")
-def testbench_interface(nports, w):
-    nports, w = env.pick(nports, 0, 3), env.pick(w, 1, 3)
+def testbench_interface(nports, w, bp):
+    nports, w, bp = env.pick(nports, 0, 3), env.pick(w, 1, 3), bool(bp)
     with env.notrace():
-        return _bad_tb(nports, w)
+        return _bad_tb(nports, w, bp)
